@@ -77,7 +77,14 @@ def _case(draw, tier):
                     c[2].reverse()
                 return ["sub", "entity", [v], c]
             return ["sub", "entity", [v], _small_cond(draw, ctx, allv if chance(draw, 1, 3) else [v])]
-        parts = [sub(), sub()] if chance(draw, 3, 4) else [sub()]
+        def maybe_nested():
+            q = sub()
+            if chance(draw, 1, 4):
+                # two levels: a sub-query whose only condition is another sub-query
+                v = draw(st.sampled_from(q[2]))
+                q = ["sub", "entity", [v], q] if (len(q[2]) == 1 or chance(draw, 1, 2)) else ["sub", "set_of", q[2], q]
+            return q
+        parts = [maybe_nested(), maybe_nested()] if chance(draw, 3, 4) else [maybe_nested()]
         if chance(draw, 1, 3) or len(parts) == 1:
             parts.insert(draw(st.integers(0, 2)), _small_cond(draw, ctx, allv))
         conn = draw(st.sampled_from(["and", "or"]))
@@ -114,6 +121,10 @@ def strategy(tier):
     return _case(tier)
 
 
+class _Reevaluation(Exception):
+    pass
+
+
 def _inline(c):
     k = c[0]
     if k == "sub":
@@ -147,7 +158,13 @@ def check(case) -> Outcome:
         def run(c):
             V, conts = declare_vars(c, objs)
             b = build_over(V, c, conts=conts)
-            return rows_of(b, list(b.q.evaluate()))
+            first = rows_of(b, list(b.q.evaluate()))
+            # the same query object evaluated again (and a third time) must give the same row set
+            for n in (2, 3):
+                again = rows_of(b, list(b.q.evaluate()))
+                if {ident(r) for r in again} != {ident(r) for r in first}:
+                    raise _Reevaluation(f"evaluation {n} gave {show_rows(again)}, the first one {show_rows(first)}")
+            return first
         variants = {"composed": case, "inlined": flat}
     else:
         variants = {"composed": "composed", "inlined": "inlined"}
@@ -214,6 +231,9 @@ def check(case) -> Outcome:
     for name, v in variants.items():
         try:
             results[name] = run(v)
+        except _Reevaluation as e:
+            return fail("reevaluation_" + name, f"{name} query: {e}; expected {show_rows(expected)}", nontrivial=nontrivial,
+                        classes=classes, features=feats + [name])
         except Exception as e:
             return fail("exception_" + name, f"{name} query: {type(e).__name__}: {e}; expected {show_rows(expected)}",
                         nontrivial=nontrivial, classes=classes, features=feats + [name])
